@@ -181,6 +181,55 @@ theorem inv_updateF (f : Faults) (c : Conf) {x : Ngx} (hx : x.Inv) : (updateUpst
     have h2 := inv_applyTableF f.stream (pending c.stream x.api.stream) hx.api.stream h1.2
     exact ⟨⟨h1.1, h2.1⟩, h2.2⟩
 
+/-! ### a failing API call is local: the other upstreams are still updated -/
+
+theorem filtered_pending_spec (ups : List Up) (prev : Table) (hn : (ups.map (·.name)).Nodup) (hi : prev.Inv)
+    (fail : List String) {u : Up} (hu : u ∈ ups) (hk : u.name ∈ prev.keys) (hok : u.name ∉ fail) :
+    ∃ l, (applyAll prev ((pending ups prev).filter fun x => !fail.contains x.1)).get u.name = some l ∧
+      SetEq l (convertEndpoints u.eps) := by
+  have hsub : (((pending ups prev).filter fun x => !fail.contains x.1).map (·.1)).Sublist ((pending ups prev).map (·.1)) :=
+    (List.filter_sublist).map _
+  have hpn : (((pending ups prev).filter fun x => !fail.contains x.1).map (·.1)).Nodup :=
+    List.Nodup.sublist (hsub.trans (pending_keys_sublist prev ups)) hn
+  obtain ⟨peers, hpeers⟩ := Option.isSome_iff_exists.mp ((Table.get_isSome prev u.name).mpr hk)
+  by_cases he : serversEqual (convertEndpoints u.eps) peers = true
+  · have hnot : u.name ∉ (pending ups prev).map (·.1) := by
+      intro hin
+      obtain ⟨⟨m, v⟩, hmv, hm⟩ := List.mem_map.mp hin
+      simp only at hm; subst hm
+      rw [pending_eq] at hmv
+      obtain ⟨u', hu', hp'⟩ := List.mem_filterMap.mp hmv
+      obtain ⟨hm', _, peers', hg', hf'⟩ := pendingOne_some hp'
+      have := unique_of_nodup_names hn hu' hu hm'.symm
+      subst this
+      rw [hpeers] at hg'; cases hg'
+      rw [he] at hf'; cases hf'
+    have hnot' : u.name ∉ ((pending ups prev).filter fun x => !fail.contains x.1).map (·.1) :=
+      fun hin => hnot (hsub.subset hin)
+    exact ⟨peers, by rw [get_applyAll_notin _ _ _ hnot']; exact hpeers,
+      (setEq_of_serversEqual (hi _ _ hpeers) he).symm⟩
+  · have hin : (u.name, convertEndpoints u.eps) ∈ (pending ups prev).filter fun x => !fail.contains x.1 := by
+      refine List.mem_filter.mpr ⟨?_, by simpa using hok⟩
+      rw [pending_eq]
+      refine List.mem_filterMap.mpr ⟨u, hu, ?_⟩
+      simp [pendingOne, hpeers, he]
+    exact ⟨dedup (convertEndpoints u.eps), get_applyAll_in _ _ _ _ hpn hin hk, setEq_dedup _⟩
+
+theorem updateF_local {f : Faults} {c : Conf} {x : Ngx} (hc : c.WF) (hx : x.api.Inv) (hg : f.get = false) :
+    (∀ u ∈ c.http, u.name ∉ f.http → u.name ∈ x.api.http.keys →
+      SetEq ((updateUpstreamServersF f c x).1.api.http.servers u.name) (convertEndpoints u.eps)) ∧
+    (∀ u ∈ c.stream, u.name ∉ f.stream → u.name ∈ x.api.stream.keys →
+      SetEq ((updateUpstreamServersF f c x).1.api.stream.servers u.name) (convertEndpoints u.eps)) := by
+  unfold updateUpstreamServersF
+  simp only [hg, Bool.false_eq_true, if_false, applyTableF]
+  constructor
+  · intro u hu hok hk
+    obtain ⟨l, hl, hs⟩ := filtered_pending_spec c.http x.api.http hc.http hx.http f.http hu hk hok
+    rw [servers_of_get hl]; exact hs
+  · intro u hu hok hk
+    obtain ⟨l, hl, hs⟩ := filtered_pending_spec c.stream x.api.stream hc.stream hx.stream f.stream hu hk hok
+    rw [servers_of_get hl]; exact hs
+
 /-! ### NGINX Plus loads a configuration -/
 
 theorem inv_loadPlus (c : Conf) {st : Table} (h : st.Inv) : (loadPlus c st).Inv :=
